@@ -339,7 +339,7 @@ func init() {
 	// ---------- G5: aliasing ----------
 
 	register(&Rule{
-		ID: "C14.R8", Props: []string{"C14", "C10", "C06"}, Min: 2,
+		ID: "C14.R8", Props: []string{"C14", "C10", "C06", "C04"}, Min: 2,
 		Doc: "directive handlers only mutate nodes that own their attribute list: in the generic element path of the evaluators, the node handed to evalVHtml/evalVText/evalVShow/evalAttributes comes from a cloner that copies the attribute slice (recognised structurally: the clone's Attr is a fresh append-copy, not the source's slice) — otherwise a handler's in-place attribute write (display:none, carriers) lands in the source node, which is evaluated again for the next slot use / loop row",
 		Run: func(p *Prog, c *Ctx) {
 			handlers := map[string]bool{"(*vuego.Vue).evalVHtml": true, "(*vuego.Vue).evalVText": true, "(*vuego.Vue).evalVShow": true, "(*vuego.Vue).evalAttributes": true}
